@@ -118,6 +118,16 @@ theorem C09_offer_once (m : Mux) (ev : MEv) (hn : KeysNodup m) :
     split
     · rename_i m' h; exact key _ h
     · rename_i m' h; exact key _ h
+  | shut k =>
+    simp only [mStep]
+    have key : ∀ r, shut m k = r → r.1.queue = m.queue := by
+      intro r hr
+      unfold shut at hr
+      repeat' split at hr
+      all_goals (subst hr; rfl)
+    split
+    · rename_i m' h; exact key _ h
+    · rename_i m' h; exact key _ h
   | read k n =>
     simp only [mStep]
     have key : ∀ r, readTube m k n = r → r.1.queue = m.queue := by
@@ -224,5 +234,142 @@ theorem C09_full_false : ¬ C09_full := by
   have := h 0 lateReq (by simp [LateOk, lateReq, evKey]; decide)
   revert this
   decide
+
+/-! ### the reservation of `reapTube`
+
+A reliable tube with an identifier of this muxer's parity stays in the map, closed, for 4·RTT after its close handshake
+(`shut`); only then does `reap` release the identifier.  During that time the clause about late
+packets holds without any assumption on the network: -/
+
+/-- closing leaves the tube in the map, closed and out of the application's hands -/
+theorem C09_shut_reserves (m m' : Mux) (k : Key) (h : shut m k = (m', true)) :
+    ∃ t', lookup m'.tubes k = some t' ∧ t'.state = .closed ∧ t'.held = false ∧
+      m'.queue = m.queue ∧ m'.parity = m.parity := by
+  unfold shut at h
+  split at h
+  · rename_i t ht
+    split at h
+    · simp only [Prod.mk.injEq, and_true] at h
+      subst h
+      have hk := lookup_key ht
+      have hk' : ({ t with state := .closed, held := false, reserved := true } : Tube).key = k := hk
+      have := lookup_setTube_self m.tubes { t with state := .closed, held := false, reserved := true } t (by rw [hk']; exact ht)
+      rw [hk'] at this
+      exact ⟨_, this, rfl, rfl, rfl, rfl⟩
+    · cases h
+  · cases h
+
+/-- a datagram for a tube that is closed but still in the map changes nothing and shows nothing:
+no data is queued, nothing is offered to `Accept`, no tube is created -/
+theorem C09_reserved_frame_dropped (m : Mux) (b : Bytes) (k : Key) (t : Tube) (hn : KeysNodup m)
+    (hk : evKey (.raw b) = some k) (hl : lookup m.tubes k = some t) (hc : t.state = .closed) :
+    mStep m (.raw b) = (m, .none) := by
+  simp only [evKey] at hk
+  split at hk
+  · rename_i f hf
+    simp only [Option.some.injEq] at hk
+    subst hk
+    simp only [mStep, onRaw, hf, onFrame_closed m f t hn hl hc]
+  · cases hk
+
+/-- while a tube is in the map - reserved or live - `Create*Tube` never hands out its identifier -/
+theorem C09_reserved_not_reused (m m' : Mux) (rel : Bool) (ty id id' : Nat) (t : Tube)
+    (hl : lookup m.tubes (rel, id) = some t) (h : create m rel ty = (m', some id')) : id' ≠ id := by
+  intro e
+  subst e
+  rw [(C09_create_fresh m m' rel ty id' h).1] at hl
+  cases hl
+
+/-- late datagrams may arrive while their tube is closed and not yet reaped -/
+def LateWhileReserved (m : Mux) : List LEv → Prop
+  | [] => True
+  | (ev, late) :: rest =>
+    (late = true → ∃ k t, evKey ev = some k ∧ lookup m.tubes k = some t ∧ t.state = .closed) ∧
+    LateWhileReserved (mStep m ev).1 rest
+
+/-- The late-packet clause, for every history in which the late datagrams arrive within the
+reservation: they are unobservable, and the muxer ends in the same state as without them. -/
+theorem C09_late_in_reservation : ∀ (evs : List LEv) (m : Mux), KeysNodup m → LateWhileReserved m evs →
+    (mRun m (evs.map (·.1))).1 = (mRun m ((evs.filter (·.2 = false)).map (·.1))).1 ∧
+    vis (mRun m (evs.map (·.1))).2 = vis (mRun m ((evs.filter (·.2 = false)).map (·.1))).2 := by
+  intro evs
+  induction evs with
+  | nil => intro m _ _; exact ⟨rfl, rfl⟩
+  | cons e rest ih =>
+    intro m hn hl
+    obtain ⟨ev, late⟩ := e
+    obtain ⟨hlate, htail⟩ := hl
+    cases late with
+    | false =>
+      have ih' := ih (mStep m ev).1 (step_keys m ev hn) htail
+      simp only [List.map_cons, List.filter_cons, decide_true, if_true, mRun]
+      refine ⟨ih'.1, ?_⟩
+      simp only [vis, List.filter_cons]
+      have := ih'.2
+      simp only [vis] at this
+      rw [this]
+    | true =>
+      obtain ⟨k, t, hk, hlk, hc⟩ := hlate rfl
+      have hraw : ∃ b, ev = .raw b := by
+        cases ev with
+        | raw b => exact ⟨b, rfl⟩
+        | _ => simp [evKey] at hk
+      obtain ⟨b, rfl⟩ := hraw
+      have hstep := C09_reserved_frame_dropped m b k t hn hk hlk hc
+      rw [hstep] at htail
+      have ih' := ih m hn htail
+      simp only [List.map_cons, List.filter_cons, mRun, hstep]
+      refine ⟨by simpa using ih'.1, ?_⟩
+      have := ih'.2
+      simp only [vis] at this ⊢
+      simpa [List.filter_cons] using this
+
+/-- non-vacuity: tube 0 is opened locally, answered, closed; a delayed data frame and a delayed
+REQ retransmission arrive during the reservation; the next tube gets identifier 2; then the reaper
+releases 0 -/
+def reservedHistory : List LEv :=
+  [(.create true 7, false), (.raw [0, 6, 0, 0, 7, 0, 0, 0, 0, 0], false), (.shut (true, 0), false),
+   (.raw [0, 4, 0, 1, 0, 0, 0, 1, 0, 0, 0, 1, 0x41], true), (.raw [0, 5, 0, 0, 7, 0, 0, 0, 0, 0], true),
+   (.create true 7, false), (.accept, false), (.reap (true, 0), false)]
+
+/-- executable form of `LateWhileReserved` -/
+def lateOkAt (m : Mux) (ev : MEv) : Bool :=
+  match evKey ev with
+  | some k => match lookup m.tubes k with
+    | some t => t.state == .closed
+    | none => false
+  | none => false
+
+def lateWhileReservedB : Mux → List LEv → Bool
+  | _, [] => true
+  | m, (ev, late) :: rest => (!late || lateOkAt m ev) && lateWhileReservedB (mStep m ev).1 rest
+
+theorem lateWhileReservedB_sound : ∀ (evs : List LEv) (m : Mux),
+    lateWhileReservedB m evs = true → LateWhileReserved m evs := by
+  intro evs
+  induction evs with
+  | nil => intro _ _; trivial
+  | cons e rest ih =>
+    intro m h
+    obtain ⟨ev, late⟩ := e
+    simp only [lateWhileReservedB, Bool.and_eq_true, Bool.or_eq_true, Bool.not_eq_true'] at h
+    refine ⟨?_, ih _ h.2⟩
+    intro hl
+    rcases h.1 with h1 | h1
+    · rw [hl] at h1; cases h1
+    · unfold lateOkAt at h1
+      split at h1
+      · rename_i k hk
+        split at h1
+        · rename_i t ht
+          exact ⟨k, t, hk, ht, by simpa using h1⟩
+        · cases h1
+      · cases h1
+
+example : LateWhileReserved { parity := 0 } reservedHistory :=
+  lateWhileReservedB_sound _ _ (by decide)
+
+example : vis (mRun { parity := 0 } (reservedHistory.map (·.1))).2 =
+    [.created true 0, .shut (true, 0), .created true 2, .reaped (true, 0)] := by decide
 
 end Tubes
